@@ -413,6 +413,20 @@ def _cycle_check(ctx: Ctx, c: Collector) -> None:
                 adds = [x for x in s.of_kind("call") if dirty is not None and x.term[1] == ("attr", dirty, "add") and x.iters == e.iters and guards_equiv(x.guards, e.guards)]
                 if not adds or adds[0].term[2] != (srcv,):
                     pr.append("the predecessor whose descendants changed is not put back on the worklist")
+        # nothing but "the new path is shorter" may stand between a path and its entry: a condition on the size of a table (an early
+        # `continue` "once every simulator is known") stops the relaxation while shorter routes are still to come
+        whiles = [T.strip(i[2]) for i in e.iters if i[1] == ("while",)]
+        sized = []
+        for g in e.guards:
+            gt = T.guard_term(g)
+            if T.strip(g[1]) in whiles or gt in whiles:
+                continue
+            if any(x[0] == "call" and x[1] == T.glob(UPDATE_MIN) for x in T.subterms((gt,))):
+                continue
+            if any(x[0] == "call" and x[1] == T.glob("len") and T.contains((x,), table) for x in T.subterms((gt,))):
+                sized.append(T.show(gt)[:70])
+        if sized:
+            pr.append(f"the relaxation is skipped when {' and '.join(sized)}: shorter routes found later are not recorded, so a cycle without delay can go unreported")
     c.add("closure", CYC, "worklist closure: src->mid + mid->dest through update_min, re-queue src", VIOLATED if pr else DISCHARGED, "; ".join(pr), loc)
     # --- final test
     pr = []
